@@ -225,6 +225,10 @@ def join_items(cols, roles, depth, jointypes=("INNER", "LEFT", "RIGHT", "FULL", 
             items.append({"op": "natural_join", "b": b, "on": [[common_keys[0], common_keys[0]]], "jointype": "LEFT"})
             items.append({"op": "natural_join", "b": b, "on": [], "jointype": "LEFT"})
             items.append({"op": "natural_join", "b": b, "on": [], "jointype": "INNER"})
+    if default_rights and len(N) > 1 and "w" not in cols:
+        # the left key N[1] is matched to the right column named like the left column N[0] (which the left keeps as data)
+        e5 = {"table": "e", "steps": [{"op": "rename_columns", "map": {N[0]: "w"}}]}
+        items.append({"op": "natural_join", "b": e5, "on": [[N[1], N[0]]], "jointype": "LEFT"})
     if default_rights and K and "k" not in cols:
         # differently named keys: the right key column stays in the result
         for jt in jointypes:
